@@ -23,7 +23,7 @@ RULE = ("random lists of 1..5 materials (nested structures of depth 0..2 over at
         "ions and energy-dependent isotopes; 30% lists with a repeated material; 6% with an atom "
         "without data), weights >= 0 with zeros forced in 35% and all-zero in 5%, density log-uniform "
         "or 0 (5%), wavelength scalar / length-1 / length-n vector; non-trivial when >= 2 materials "
-        "and the result is neither zeros nor refused; distinct by canonical input")
+        "and the result is neither zeros nor (None, None, None); distinct by canonical input")
 
 
 def gen_case(rng, pools):
@@ -84,6 +84,9 @@ def eval_real(pt, case):
     except TypeError as e:
         out["calc"] = "raises"
         res = None
+    if res is not None and all(v is None for v in res):
+        out["calc"] = "missing"
+        res = None
     direct = nsf.neutron_scattering(mix, density=case["density"], wavelength=warg)
     n = len(ws)
     if direct[0] is None:
@@ -135,9 +138,12 @@ def judge(run, pt, case, replies):
     n = len(case["ws"])
     N, tot = out["N"], out["tot"]
     # ---- the property on the real code
-    if out["calc"] == "raises" or out["direct"] == "missing":
-        if not (out["calc"] == "raises" and out["direct"] == "missing"):
-            run.violation("calculator and direct calculation do not both refuse a material without neutron data",
+    if isinstance(out["calc"], str) or out["direct"] == "missing":
+        if not (out["calc"] == "missing" and out["direct"] == "missing"):
+            run.violation("a material contains an atom whose SLD is unknown: the calculator %s while the direct calculation "
+                          "returns %s" % ("raises TypeError" if out["calc"] == "raises" else
+                                          "returns (None, None, None)" if out["calc"] == "missing" else "returns numbers",
+                                          "(None, None, None)" if out["direct"] == "missing" else "numbers"),
                           case, site="missing")
     else:
         if not out["shape_ok"]:
@@ -159,7 +165,7 @@ def judge(run, pt, case, replies):
     m = nc.parse_outcome(replies[0])
     real = out["calc"]
     if isinstance(m, str):
-        m_list = m if m == "raises" else [m] * n
+        m_list = m if m == "missing" else [m] * n
     elif case["mode"] == "scalar":
         m_list = [m]
     else:
@@ -209,6 +215,10 @@ def run_cases(run, pt, tl, cases):
 
 
 FIXED = [
+    # D19 (fixes/composite-missing-data.patch): Ra has b_c but no density – has_sld() is false
+    dict(materials=[[(1, (88, 0, 0)), (2, (8, 0, 0))]], weights=[1.0], density=5.0, mode="scalar", ws=[1.798]),
+    dict(materials=[[(2, (1, 0, 0)), (1, (8, 0, 0))], [(1, (88, 226, 0))]], weights=[1.0, 0.0], density=1.0, mode="vector", ws=[1.0, 2.0]),
+    dict(materials=[[(1, (43, 98, 0))]], weights=[1.0], density=1.0, mode="scalar", ws=[1.798]),
     # the sampled cases of test_nsf.py and the clipping / zero corners
     dict(materials=[[(2, (1, 0, 0)), (1, (8, 0, 0))], [(2, (1, 2, 0)), (1, (8, 0, 0))], [(1, (71, 176, 0))]],
          weights=[1.0, 2.0, 3.0], density=1.0, mode="scalar", ws=[4.75]),
@@ -235,7 +245,7 @@ def run(run: Run) -> int:
     return run.finish(RULE, assumptions=[
         "floating-point rounding: compared at 1e-9 (incoherent SLD through σ_i with absolute tolerance 1e-12·σ_s, DESIGN 4.5)",
         "numpy broadcasting (weights[:, None], np.sum(axis=0)) is modelled as the pointwise map over the wavelength vector",
-        "materials containing an atom without neutron data: only 'both refuse' is compared (TypeError while building the calculator vs (None, None, None))"])
+        "repaired behaviour (fixes/composite-missing-data.patch): a material with an atom whose SLD is unknown makes the calculator return (None, None, None)"])
 
 
 def _fix(case):
